@@ -137,10 +137,25 @@ def check(prog, run, reps=None, only_reattach=False):
                 if entry == "init":
                     s = I.instantiate(scsi_cls, [dev], {} if blocksize is None else {"blocksize": blocksize}, None, _F())
                 else:
-                    s = Instance(scsi_cls)
-                    put(prog, s, "blocksize", 0 if blocksize is None else blocksize)
-                    s.attrs["device"] = prior
+                    n0 = 0
+                    if prior is None:
+                        # a facade as the library itself makes one, not attached to anything yet (SCSI(None) sends nothing):
+                        # whatever its constructor sets up is there when it is called with a device
+                        try:
+                            s = I.instantiate(scsi_cls, [None], {} if blocksize is None else {"blocksize": blocksize}, None, _F())
+                            n0 = len(I.events)
+                        except PyRaise:
+                            s = None
+                    else:
+                        s = None
+                    if s is None:
+                        s = Instance(scsi_cls)
+                        put(prog, s, "blocksize", 0 if blocksize is None else blocksize)
+                        s.attrs["device"] = prior
                     I.call_function(callf, [s, dev], {}, None, _F())
+                    calls = [e for e in I.events[n0:] if e["kind"] == "external-call" and e["name"] == "sgio.execute"]
+                    muts = [e for e in I.events[n0:] if e["kind"] in ("static-mutation", "class-store", "global-store", "memo-store")]
+                    return s, dev, calls, muts
                 calls = [e for e in I.events if e["kind"] == "external-call" and e["name"] == "sgio.execute"]
                 muts = [e for e in I.events if e["kind"] in ("static-mutation", "class-store", "global-store", "memo-store")]
                 return s, dev, calls, muts
